@@ -45,7 +45,7 @@ class C20(PropBase):
 
     def generate(self, seed, tier, idx):
         rng = Rng(seed)
-        proj = gen.gen_project(rng, n_units=rng.randint(1, 4), inline=0.2, max_atoms=3, same_basename=0.1)
+        proj = gen.gen_project(rng, n_units=rng.randint(1, 4), inline=0.2, max_atoms=3, same_basename=0.1, corpus=0.25)
         opts = {"--enable": rng.choice(["--enable=style,warning,performance,portability", "--enable=all", "--enable=style,information"])}
         if rng.chance(0.5):
             opts["--inline-suppr"] = "--inline-suppr"
@@ -78,6 +78,11 @@ class C20(PropBase):
         scn["project"] = gen_project_mode(rng, proj["units"], 0.15)
         # how the victim is interrupted: SIGKILL (with a byte-prefix tear of the op) or "kill <pid>" with a catchable signal
         scn["victim"]["crash_sig"] = rng.choice([9, 9, 9, 15, 2, 1])
+        # a partial kill: with the process executor one worker is SIGKILLed at a message boundary (the OOM killer, a stray
+        # kill) while the parent survives and finishes the run; the next complete run must still be right
+        scn["victim_mode"] = "worker-death" if scn["victim"].get("exec") == "process" and rng.chance(0.5) else "kill"
+        from .execsim import gen_cmdline_suppressions
+        scn["suppr"] = gen_cmdline_suppressions(rng, proj["units"]) if rng.chance(0.5) else []
         return scn
 
     # ------------------------------------------------------------------
@@ -95,7 +100,7 @@ class C20(PropBase):
         os.makedirs(tree_dir)
         core.write_tree(tree_dir, gen.join_tree(scn["tree"]))
         units = list(scn["units"])
-        oargs = gen.flatten_opts(scn.get("opts", {}))
+        oargs = gen.flatten_opts(scn.get("opts", {})) + list(scn.get("suppr", []))
         base = os.path.join(wd, "bd_base")
         os.makedirs(base)
 
@@ -158,6 +163,34 @@ class C20(PropBase):
             plan_pts.append((k, p["prefix"]))
         # phase 1: victims
         victims = []
+        if scn.get("victim_mode") == "worker-death":
+            from .c21 import worker_messages
+            tm = worker_messages(dry)
+            dpts = []
+            for p in (scn["points"] if isinstance(scn["points"], list) else [{"frac": x / 16.0} for x in range(16)]):
+                if not tm:
+                    break
+                ws = sorted(tm)
+                w = ws[int(p.get("frac", 0) * 7919) % len(ws)]
+                m = int(p.get("frac", 0) * 104729) % (len(tm[w]) + 1)
+                if (w, m) not in dpts:
+                    dpts.append((w, m))
+            for i, (w, m) in enumerate(dpts):
+                bd = "bd_k%d" % i
+                shutil.copytree(base, os.path.join(wd, bd))
+                v = dict(victim); v.pop("crash_sig", None)
+                v["die"] = [{"worker": w, "msg": m, "off": 0, "how": "sig", "arg": 9}]
+                r = core.run_sim("plain", tree_dir, args_for(v, bd, units), plan=plan_of(v), roots=["../" + bd], workdir=wd, tag="vic%d" % i, strip=strip)
+                out.account(r)
+                if not any(l.startswith("X ") and " die w" in l for l in r.trace):
+                    out.probe("kill_point_not_reached")
+                    continue
+                c = crashed(r)
+                if c:
+                    out.probe("parent_did_not_survive_the_worker_death")    # C21's business; the build dir is still judged below
+                mt = tm[w][m][0] if m < len(tm[w]) else "end"
+                victims.append((i, bd, m, 0, "worker-death", "before message %s (type %s)" % (m, mt), "SIGKILL of one worker", 0))
+            plan_pts = []
         for i, (k, pre) in enumerate(plan_pts):
             bd = "bd_k%d" % i
             shutil.copytree(base, os.path.join(wd, bd))
@@ -179,7 +212,9 @@ class C20(PropBase):
             pcls = "n/a" if olen == 0 else "0" if pre == 0 else "full" if pre >= 1000 else "interior"
             if victim.get("crash_sig", 9) != 9:
                 pcls = "signal %d%s" % (victim["crash_sig"], " (handled by the program)" if handled else "")
-            closed = sum(1 for o in r.ops() if int(o[2]) < k and o[4] == "close" and file_class(o[5]) == "*.aN")
+            # cache files that are complete on disk at the kill point (the kill lands *before* op k: at a close op every byte
+            # of that file, including the closing tag, has already been written)
+            closed = sum(1 for o in r.ops() if int(o[2]) <= k and o[4] == "close" and file_class(o[5]) == "*.aN")
             victims.append((i, bd, k, pre, okind, file_class(orel), pcls, closed))
         # phase 2: edit
         if scn.get("edit"):
@@ -227,6 +262,9 @@ class C20(PropBase):
                     "edit between: %s" % (scn["edit"]["desc"] if scn.get("edit") else "none")] + core.fmt_diff(oa, ob, "after-kill", "fresh")
                 if kind == K9_KIND and rec.get("exec", "j1") == "j1":   # K9 needs the single-job recovery run (in-memory + build-dir analysis)
                     sig = K9_KIND + " after a killed run"
+                elif kind == "extra-unmatchedSuppression" and any(x.startswith("--suppress=unmatchedSuppression") for x in scn.get("suppr", [])):
+                    # known finding K14, see known_findings.json
+                    sig = "unmatchedSuppression reports that a suppression of unmatchedSuppression hides in a fresh run reappear when findings are replayed from the cache"
                 elif kind == "missing-unmatchedSuppression" and closed > 0:
                     # one shape, wherever the kill lands: see known_findings.json
                     sig = "missing-unmatchedSuppression after kill once a unit's cache file was complete"
@@ -243,6 +281,9 @@ class C20(PropBase):
                 c = copy.deepcopy(scn); c["points"] = [p]
                 yield c
         for c in project_candidates(scn):
+            yield c
+        for i in range(len(scn.get("suppr", []))):
+            c = copy.deepcopy(scn); del c["suppr"][i]
             yield c
         for key in ("warmup", "pre_edit", "edit", "second_kill"):
             if scn.get(key):
@@ -276,7 +317,7 @@ class C20(PropBase):
                 "pre_edit": scn["pre_edit"]["desc"] if scn.get("pre_edit") else None,
                 "victim": " ".join(exec_args(scn["victim"])) + " chunk=%s interrupted by signal %s" % (scn["victim"].get("chunk"), scn["victim"].get("crash_sig", 9)),
                 "kill_points": scn["points"] if scn["points"] == "all" else len(scn["points"]),
-                "edit": scn["edit"]["desc"] if scn.get("edit") else None,
+                "edit": scn["edit"]["desc"] if scn.get("edit") else None, "victim_mode": scn.get("victim_mode", "kill"), "suppressions": scn.get("suppr"),
                 "recovery": " ".join(exec_args(scn["recovery"])), "second_kill": scn.get("second_kill")}
 
 
